@@ -1599,7 +1599,7 @@ impl<'comments> Formatter<'comments> {
 
         let first_precedence = first.binop_precedence();
 
-        let first = self.wrap_expr(first);
+        let first = self.wrap_operand(first);
 
         docs.push(self.operator_side(first, 5, first_precedence));
 
@@ -1613,7 +1613,7 @@ impl<'comments> Formatter<'comments> {
                     ..
                 } => self.pipe_capture_right_hand_side(body),
 
-                _ => self.wrap_expr(expr),
+                _ => self.wrap_operand(expr),
             };
 
             let space = if one_liner { break_("", " ") } else { line() };
